@@ -7,4 +7,4 @@ export PYTHONPATH="$TMVERIF_REPO/lib/python:$HERE/harness"
 export PYTHONDONTWRITEBYTECODE=1
 /venv/bin/python "$HERE/harness/extract.py"
 python3 "$HERE/tools/gen_root.py"
-cd "$HERE/lean" && lake build
+cd "$HERE/lean" && (lake build || echo "setup: lake build reported failures (each check re-builds and reports its own targets)")
